@@ -8,6 +8,7 @@
 use super::*;
 use crate::core::kani_h::*;
 use crate::kani_verif::*;
+use crate::core::TracingPublicKey;
 
 // ---------------------------------------------------------------------------
 // rekey(rng, msk, rights)
@@ -19,14 +20,14 @@ use crate::kani_verif::*;
 macro_rules! rekey_ok_contract {
     ($name:ident, $hyb1:expr) => {
         kproof! {
-            #[kani::unwind(10)]
+            #[kani::unwind(8)]
             fn $name() {
                 let mut rng = SymRng;
                 let (r1, r2) = (right(&[1]), right(&[2]));
                 let act1: bool = kani::any();
                 let act2: bool = kani::any();
-                let k1 = if $hyb1 { hybrid(any_u251(), kani::any()) } else { classic(any_u251()) };
-                let k2 = classic(any_u251());
+                let k1 = if $hyb1 { hybrid(any_fe(), kani::any()) } else { classic(any_fe()) };
+                let k2 = classic(any_fe());
                 let mut msk = mk_msk(mk_tsk0(1), false);
                 msk.secrets.insert(r1.clone(), (act1, k1.clone()));
                 msk.secrets.insert(r2.clone(), (act2, k2.clone()));
@@ -56,14 +57,14 @@ rekey_ok_contract!(rekey__ok__hybridized, true);
 macro_rules! rekey_err_contract {
     ($name:ident, $unknown_first:expr) => {
         kproof! {
-            #[kani::unwind(10)]
+            #[kani::unwind(8)]
             fn $name() {
                 let mut rng = SymRng;
                 let (r1, r2, r3) = (right(&[1]), right(&[2]), right(&[3]));
                 let act1: bool = kani::any();
                 let act2: bool = kani::any();
-                let k1 = classic(any_u251());
-                let k2 = classic(any_u251());
+                let k1 = classic(any_fe());
+                let k2 = classic(any_fe());
                 let mut msk = mk_msk(mk_tsk0(1), false);
                 msk.secrets.insert(r1.clone(), (act1, k1.clone()));
                 msk.secrets.insert(r2.clone(), (act2, k2.clone()));
@@ -85,3 +86,353 @@ macro_rules! rekey_err_contract {
 rekey_err_contract!(rekey__err_unknown_first, true);
 // @obl props=C09,C10 tier=quick class=bounded fn=core::primitives::rekey shape="2 rights; set = {known, unknown}"
 rekey_err_contract!(rekey__err_unknown_last, false);
+
+// ---------------------------------------------------------------------------
+// update_msk(rng, msk, omega)
+//   Ok  => rights(msk') = keys(omega); kept rights: chain unchanged except front.activated := (status = EncryptDecrypt)
+//          and the front loses its KEM key iff the hint is Classic; new rights: one fresh activated secret of the
+//          hinted flavour; Err <=> some new right is DecryptOnly (C09); Err => msk' == msk (C10)
+// ---------------------------------------------------------------------------
+
+macro_rules! update_msk_ok_contract {
+    ($name:ident, $front_hyb:expr, $hint1:expr, $hint4:expr) => {
+        kproof! {
+            #[kani::unwind(8)]
+            fn $name() {
+                let mut rng = SymRng;
+                let (r1, r2, r4) = (right(&[1]), right(&[2]), right(&[4]));
+                let (x1a, x1b, x2, d1): (u8, u8, u8, u8) = (any_fe(), any_fe(), any_fe(), kani::any());
+                let (act_old, act_front, enc1): (bool, bool, bool) = (kani::any(), kani::any(), kani::any());
+                let front = if $front_hyb { hybrid(x1b, d1) } else { classic(x1b) };
+                let mut msk = mk_msk(mk_tsk0(1), false);
+                msk.secrets.insert(r1.clone(), (act_old, classic(x1a)));
+                msk.secrets.insert(r1.clone(), (act_front, front.clone()));
+                msk.secrets.insert(r2.clone(), (true, classic(x2)));
+                // omega: r1 kept (hint1, status1), r2 removed, r4 new
+                let mut omega = HashMap::new();
+                omega.insert(r1.clone(), (hint($hint1), status(enc1)));
+                omega.insert(r4.clone(), (hint($hint4), status(true)));
+                let ok = ok_or_forget(update_msk(&mut rng, &mut msk, omega)).is_some();
+                assert!(ok, "C09: update succeeds when no new right is born disabled");
+                assert!(msk.secrets.len() == 2 && msk.secrets.contains_key(&r1) && msk.secrets.contains_key(&r4), "C03/C05: the rights of the master key are exactly those of the structure");
+                assert!(!msk.secrets.contains_key(&r2), "C03/C05: rights outside the structure are removed with all their secrets");
+                let c1 = mchain(&msk, &r1);
+                let c4 = mchain(&msk, &r4);
+                let expect_front = if $front_hyb && $hint1 { hybrid(x1b, d1) } else { classic(x1b) };
+                assert!(c1[0] == Some((enc1, expect_front)), "C06/C11: the front is activated iff the right is EncryptDecrypt; it keeps its scalar and loses its KEM key iff the hint is Classic");
+                assert!(c1[1] == Some((act_old, classic(x1a))) && c1[2].is_none(), "C03/C04: older secrets of a kept right are untouched");
+                assert!(c4[0].is_some() && c4[1].is_none(), "C03: a new right gets exactly one secret");
+                let (a4, k4) = c4[0].clone().unwrap();
+                assert!(a4, "C06: a new right is born activated");
+                assert!(k4.is_hybridized() == $hint4, "C11: a new right is hybridized iff its hint says so");
+                std::mem::forget(msk);
+            }
+        }
+    };
+}
+// @obl props=C03,C04,C05,C06,C09,C11 tier=quick class=bounded fn=core::primitives::update_msk shape="kept right (2 revisions, hybridized front, hint hybridized), removed right, new classic right"
+update_msk_ok_contract!(update_msk__ok__hyb_kept_hyb, true, true, false);
+// @obl props=C03,C04,C05,C06,C09,C11 tier=quick class=bounded fn=core::primitives::update_msk shape="kept right (hybridized front, hint classic: KEM key dropped), new hybridized right"
+update_msk_ok_contract!(update_msk__ok__hyb_kept_classic, true, false, true);
+// @obl props=C03,C04,C05,C06,C09,C11 tier=thorough class=bounded fn=core::primitives::update_msk shape="kept right (classic front, hint classic), new classic right"
+update_msk_ok_contract!(update_msk__ok__classic_kept, false, false, false);
+
+macro_rules! update_msk_err_contract {
+    ($name:ident, $bad_first:expr) => {
+        kproof! {
+            #[kani::unwind(8)]
+            fn $name() {
+                let mut rng = SymRng;
+                let (r1, r2, r4) = (right(&[1]), right(&[2]), right(&[4]));
+                let (x1, x2): (u8, u8) = (any_fe(), any_fe());
+                let (a1, a2): (bool, bool) = (kani::any(), kani::any());
+                let mut msk = mk_msk(mk_tsk0(1), false);
+                msk.secrets.insert(r1.clone(), (a1, classic(x1)));
+                msk.secrets.insert(r2.clone(), (a2, classic(x2)));
+                // omega keeps r1 (possibly disabled: allowed), drops r2, adds r4 which is born disabled (refused)
+                let mut omega = HashMap::new();
+                if $bad_first { omega.insert(r4.clone(), (hint(false), status(false))); }
+                omega.insert(r1.clone(), (hint(false), status(kani::any())));
+                if !$bad_first { omega.insert(r4.clone(), (hint(false), status(false))); }
+                let e = err_kind(update_msk(&mut rng, &mut msk, omega));
+                assert!(e == E_NOT_PERMITTED, "C09: adding a right that is born disabled is refused (OperationNotPermitted)");
+                assert!(msk.secrets.len() == 2, "C10: a failed update loses no right");
+                assert!(mchain(&msk, &r1) == [Some((a1, classic(x1))), None, None, None], "C10: a failed update leaves every secret and flag untouched");
+                assert!(mchain(&msk, &r2) == [Some((a2, classic(x2))), None, None, None], "C10: a failed update removes nothing");
+                assert!(!msk.secrets.contains_key(&r4), "C10: a failed update adds nothing");
+                std::mem::forget(msk);
+            }
+        }
+    };
+}
+// @obl props=C09,C10 tier=quick class=bounded fn=core::primitives::update_msk shape="2 rights; omega = {born-disabled new, kept}"
+update_msk_err_contract!(update_msk__err_born_disabled_first, true);
+// @obl props=C09,C10 tier=quick class=bounded fn=core::primitives::update_msk shape="2 rights; omega = {kept, born-disabled new}"
+update_msk_err_contract!(update_msk__err_born_disabled_last, false);
+
+// ---------------------------------------------------------------------------
+// prune(msk, rights): chain' = [front] for every listed right held by the master key; everything else unchanged
+// ---------------------------------------------------------------------------
+
+// @obl props=C05,C06 tier=quick class=bounded fn=core::primitives::prune shape="right with 3 revisions pruned, right with 2 revisions not listed, unknown right listed"
+kproof! {
+    #[kani::unwind(8)]
+    fn prune__keeps_exactly_the_front() {
+        let (r1, r2, r9) = (right(&[1]), right(&[2]), right(&[9]));
+        let x: [u8; 5] = kani::any();
+        kani::assume((x[0] as u32) < crate::core::nike::toy_p() && (x[1] as u32) < crate::core::nike::toy_p() && (x[2] as u32) < crate::core::nike::toy_p() && (x[3] as u32) < crate::core::nike::toy_p() && (x[4] as u32) < crate::core::nike::toy_p());
+        let f: [bool; 5] = kani::any();
+        let mut msk = mk_msk(mk_tsk0(1), false);
+        msk.secrets.insert(r1.clone(), (f[0], classic(x[0])));
+        msk.secrets.insert(r1.clone(), (f[1], hybrid(x[1], 7)));
+        msk.secrets.insert(r1.clone(), (f[2], classic(x[2])));
+        msk.secrets.insert(r2.clone(), (f[3], classic(x[3])));
+        msk.secrets.insert(r2.clone(), (f[4], classic(x[4])));
+        let mut set = HashSet::new();
+        set.insert(r9.clone());
+        set.insert(r1.clone());
+        prune(&mut msk, &set);
+        assert!(mchain(&msk, &r1) == [Some((f[2], classic(x[2]))), None, None, None], "C05/C06: a pruned right keeps exactly its newest secret, flag and flavour included");
+        assert!(mchain(&msk, &r2) == [Some((f[4], classic(x[4]))), Some((f[3], classic(x[3]))), None, None], "C05: rights that are not listed are untouched");
+        assert!(msk.secrets.len() == 2, "C05: prune adds or removes no right");
+        std::mem::forget(msk);
+    }
+}
+
+// ---------------------------------------------------------------------------
+// refresh_coordinate_keys(msk, user chains)
+//   per right: dropped iff absent from the master key; else result = (master secrets newer than the user's newest)
+//   ++ (the user's secrets still in the master chain, in master order); always a sub-sequence of the master chain (C05),
+//   begins with the master front (C04), never gains secrets older than the user's own (C05)
+// ---------------------------------------------------------------------------
+
+macro_rules! refresh_chain_contract {
+    ($name:ident, master = [$($m:expr),*], user = [$($u:expr),*], expect = [$($e:expr),*]) => {
+        kproof! {
+            #[kani::unwind(8)]
+            fn $name() {
+                // four pairwise distinct secrets t[1] (oldest) .. t[4] (newest): the fresh-draw assumption
+                let t: [u8; 5] = kani::any();
+                kani::assume((t[1] as u32) < crate::core::nike::toy_p() && (t[2] as u32) < crate::core::nike::toy_p() && (t[3] as u32) < crate::core::nike::toy_p() && (t[4] as u32) < crate::core::nike::toy_p());
+                kani::assume(t[1] != t[2] && t[1] != t[3] && t[1] != t[4] && t[2] != t[3] && t[2] != t[4] && t[3] != t[4]);
+                let (r1, r2) = (right(&[1]), right(&[2]));
+                let mut msk = mk_msk(mk_tsk0(1), false);
+                let master: &[usize] = &[$($m),*];
+                let mut i = master.len();
+                while i > 0 { i -= 1; msk.secrets.insert(r1.clone(), (kani::any(), classic(t[master[i]]))); }
+                let mut chain = LinkedList::new();
+                $( chain.push_back(classic(t[$u])); )*
+                let mut other = LinkedList::new();
+                other.push_back(classic(t[1]));
+                let mut usk: RevisionVec<Right, RightSecretKey> = RevisionVec::new();
+                usk.insert_new_chain(r2.clone(), other); // a right the master key does not hold
+                usk.insert_new_chain(r1.clone(), chain);
+                let out = refresh_coordinate_keys(&msk, usk);
+                let expect: &[usize] = &[$($e),*];
+                if expect.is_empty() {
+                    assert!(out.len() == 0, "C05: rights unknown to the master key are dropped");
+                } else {
+                    assert!(out.len() == 1, "C05: rights unknown to the master key are dropped, the others are kept");
+                    let (k, c) = uchain(&out, 0).unwrap();
+                    assert!(k == r1, "C04: the refreshed chain stays attached to its right");
+                    let mut j = 0;
+                    while j < 4 {
+                        let want = if j < expect.len() { Some(classic(t[expect[j]])) } else { None };
+                        assert!(c[j] == want, "C04/C05: refreshed chain = master secrets newer than the user's newest ++ user secrets still in the master key (a sub-sequence of the master chain starting at its front)");
+                        j += 1;
+                    }
+                }
+                std::mem::forget(msk);
+                std::mem::forget(out);
+            }
+        }
+    };
+}
+// @obl props=C04,C05 tier=quick class=bounded fn=core::primitives::refresh_coordinate_keys shape="master [t3,t2,t1], user [t2,t1]"
+refresh_chain_contract!(refresh_chain__behind_by_one, master = [3, 2, 1], user = [2, 1], expect = [3, 2, 1]);
+// @obl props=C04,C05 tier=quick class=bounded fn=core::primitives::refresh_coordinate_keys shape="master [t3,t2] (t1 pruned), user [t2,t1]"
+refresh_chain_contract!(refresh_chain__oldest_pruned, master = [3, 2], user = [2, 1], expect = [3, 2]);
+// @obl props=C04,C05 tier=quick class=bounded fn=core::primitives::refresh_coordinate_keys shape="master [t4,t3] (all user secrets pruned), user [t2,t1]"
+refresh_chain_contract!(refresh_chain__all_pruned, master = [4, 3], user = [2, 1], expect = [4, 3]);
+// @obl props=C04,C05 tier=quick class=bounded fn=core::primitives::refresh_coordinate_keys shape="master [t3,t2,t1], user [t2] (issued after t1)"
+refresh_chain_contract!(refresh_chain__no_older_gain, master = [3, 2, 1], user = [2], expect = [3, 2]);
+// @obl props=C04,C05 tier=thorough class=bounded fn=core::primitives::refresh_coordinate_keys shape="master [t2,t1], user [t2,t1] (up to date)"
+refresh_chain_contract!(refresh_chain__up_to_date, master = [2, 1], user = [2, 1], expect = [2, 1]);
+// @obl props=C04,C05 tier=thorough class=bounded fn=core::primitives::refresh_coordinate_keys shape="master [t4], user [t3,t2,t1] (pruned after rekey)"
+refresh_chain_contract!(refresh_chain__pruned_to_front, master = [4], user = [3, 2, 1], expect = [4]);
+// @obl props=C05 tier=quick class=bounded fn=core::primitives::refresh_coordinate_keys shape="right absent from the master key"
+refresh_chain_contract!(refresh_chain__right_deleted, master = [], user = [2, 1], expect = []);
+
+// ---------------------------------------------------------------------------
+// usk_keygen(rng, msk, rights)
+//   Ok  => one chain per requested right = [front of the master chain] (flavour included), ps = tracer points,
+//          id registered in the master key and satisfying sum a_i.t_i = s (C17), signed iff the master key signs
+//   Err <=> some right is not held by the master key (KeyError), and then the master key is unchanged
+// ---------------------------------------------------------------------------
+
+// @obl props=C01,C04,C09,C11,C17 tier=quick class=bounded fn=core::primitives::usk_keygen shape="2 tracers, rights r1 (2 revisions, hybridized front) and r2 (classic); both requested"
+kproof! {
+    #[kani::unwind(8)]
+    fn usk_keygen__ok() {
+        let mut rng = SymRng;
+        let (r1, r2) = (right(&[1]), right(&[2]));
+        let (s, t0, t1): (u8, u8, u8) = (any_fe(), any_fe(), any_fe());
+        kani::assume(t1 != 0); // tracers are invertible scalars (non-zero draws)
+        let (x1a, x1b, x2, d): (u8, u8, u8, u8) = (any_fe(), any_fe(), any_fe(), kani::any());
+        let mut msk = mk_msk(mk_tsk(s, &[t0, t1]), false);
+        msk.secrets.insert(r1.clone(), (true, classic(x1a)));
+        msk.secrets.insert(r1.clone(), (false, hybrid(x1b, d)));
+        msk.secrets.insert(r2.clone(), (true, classic(x2)));
+        let mut set = HashSet::new();
+        set.insert(r2.clone());
+        set.insert(r1.clone());
+        let usk = ok_or_forget(usk_keygen(&mut rng, &mut msk, set));
+        assert!(usk.is_some(), "C09: key generation succeeds for rights held by the master key");
+        let usk = usk.unwrap();
+        assert!(usk.secrets.len() == 2, "C01: one chain per requested right");
+        let (ka, ca) = uchain(&usk.secrets, 0).unwrap();
+        let (kb, cb) = uchain(&usk.secrets, 1).unwrap();
+        assert!(ka == r2 && kb == r1, "C01: the chains are those of the requested rights");
+        assert!(ca == [Some(classic(x2)), None, None, None], "C01/C04/C11: a new key holds exactly the newest secret of each right, with its flavour");
+        assert!(cb == [Some(hybrid(x1b, d)), None, None, None], "C01/C04/C11: a new key holds exactly the newest secret of each right, with its flavour");
+        assert!(usk.ps.len() == 2 && usk.ps[0].0 == t0 && usk.ps[1].0 == t1, "C17: the tracing points of the key are the public tracers of the master key, in order");
+        let id = id_view(&usk.id);
+        assert!(id[0].is_some() && id[1].is_some() && id[2].is_none(), "C17: one marker per tracer");
+        assert!(addp(mulp(id[0].unwrap(), t0), mulp(id[1].unwrap(), t1)) == s, "C17: the markers combined with the tracers give the binding scalar");
+        assert!(msk.tsk.users.len() == 1 && msk.tsk.is_known(&usk.id), "C17: the identifier is recorded in the master key");
+        assert!(usk.signature.is_none(), "C08: no signature without signing key");
+        assert!(mchain(&msk, &r1)[0].as_ref().map(|p| p.1.clone()) == Some(hybrid(x1b, d)) && msk.secrets.len() == 2, "C10: key generation does not touch the secrets of the master key");
+        std::mem::forget(msk);
+        std::mem::forget(usk);
+    }
+}
+
+macro_rules! usk_keygen_err_contract {
+    ($name:ident, $unknown_first:expr) => {
+        kproof! {
+            #[kani::unwind(8)]
+            fn $name() {
+                let mut rng = SymRng;
+                let (r1, r9) = (right(&[1]), right(&[9]));
+                let x1 = any_fe();
+                let a1: bool = true; // flags stored in chains are kept concrete: `Option<(bool, _)>` uses the bool as niche
+                let mut msk = mk_msk(mk_tsk(any_fe(), &[any_fe(), 1]), false);
+                msk.secrets.insert(r1.clone(), (a1, classic(x1)));
+                let mut set = HashSet::new();
+                if $unknown_first { set.insert(r9.clone()); set.insert(r1.clone()); } else { set.insert(r1.clone()); set.insert(r9.clone()); }
+                let e = err_kind(usk_keygen(&mut rng, &mut msk, set));
+                assert!(e == E_KEY, "C09: key generation for a right the master key does not hold fails (KeyError)");
+                assert!(msk.tsk.users.len() == 0, "C10/C17: a failed key generation registers no identifier");
+                assert!(mchain(&msk, &r1) == [Some((a1, classic(x1))), None, None, None] && msk.secrets.len() == 1, "C10: a failed key generation leaves the master key untouched");
+                std::mem::forget(msk);
+            }
+        }
+    };
+}
+// @obl props=C09,C10,C17 tier=quick class=bounded fn=core::primitives::usk_keygen shape="2 tracers, right r1 held, r9 unknown; requested {r1, r9}"
+usk_keygen_err_contract!(usk_keygen__err_unknown_last, false);
+
+// @obl props=C08,C17 tier=quick class=bounded fn=core::primitives::usk_keygen shape="signing master key, 1 right" loops="Zeroize>::zeroize=18"
+kproof! {
+    #[kani::unwind(8)]
+    fn usk_keygen__signed() {
+        let mut rng = SymRng;
+        let r1 = right(&[1]);
+        let mut msk = mk_msk(mk_tsk(any_fe(), &[any_fe(), 1]), true);
+        msk.secrets.insert(r1.clone(), (true, classic(any_fe())));
+        let mut set = HashSet::new();
+        set.insert(r1.clone());
+        let n0 = unsafe { oracle::N };
+        let usk = ok_or_forget(usk_keygen(&mut rng, &mut msk, set)).unwrap();
+        let n1 = unsafe { oracle::N };
+        assert!(usk.signature.is_some(), "C08: keys issued by a signing master key are signed");
+        assert!(n1 == n0 + 1 && unsafe { oracle::DOMS[n0] } == oracle::DOM_KMAC, "C08: the signature is one KMAC computation");
+        // KMAC stream: key(16) ++ custom(13) ++ markers(2 x 1) ++ right bytes(1) ++ scalar(1)
+        assert!(unsafe { oracle::LENS[n0] } == 16 + 13 + 2 + 1 + 1, "C08: the KMAC input covers the identifier, every right and every secret");
+        std::mem::forget(msk);
+        std::mem::forget(usk);
+    }
+}
+
+// ---------------------------------------------------------------------------
+// MasterSecretKey::mpk / MasterPublicKey::select_subkeys
+// ---------------------------------------------------------------------------
+
+// @obl props=C04,C06,C11,C17 tier=quick class=bounded fn=core::MasterSecretKey::mpk shape="2 tracers; r1 (2 revisions, front activated hybridized), r2 (front deactivated, older activated), r3 (classic activated)"
+kproof! {
+    #[kani::unwind(8)]
+    fn mpk__publishes_activated_fronts() {
+        let (r1, r2, r3) = (right(&[1]), right(&[2]), right(&[3]));
+        let (s, t0, t1): (u8, u8, u8) = (any_fe(), any_fe(), any_fe());
+        let x: [u8; 5] = kani::any();
+        kani::assume((x[0] as u32) < crate::core::nike::toy_p() && (x[1] as u32) < crate::core::nike::toy_p() && (x[2] as u32) < crate::core::nike::toy_p() && (x[3] as u32) < crate::core::nike::toy_p() && (x[4] as u32) < crate::core::nike::toy_p());
+        let d: u8 = kani::any();
+        let act3: bool = kani::any();
+        let mut msk = mk_msk(mk_tsk(s, &[t0, t1]), false);
+        msk.secrets.insert(r1.clone(), (kani::any(), classic(x[0])));
+        msk.secrets.insert(r1.clone(), (true, hybrid(x[1], d)));
+        msk.secrets.insert(r2.clone(), (true, classic(x[2])));
+        msk.secrets.insert(r2.clone(), (false, classic(x[3])));
+        msk.secrets.insert(r3.clone(), (act3, classic(x[4])));
+        let mpk = ok_or_forget(msk.mpk()).unwrap();
+        assert!(mpk.encryption_keys.len() == 1 + act3 as usize, "C06: exactly the rights whose newest secret is activated are published");
+        assert!(!mpk.encryption_keys.contains_key(&r2), "C06: a right whose newest secret is deactivated is not published, even if an older secret is activated");
+        assert!(mpk.encryption_keys.contains_key(&r3) == act3, "C06: publication follows the activation flag of the newest secret");
+        match mpk.encryption_keys.get(&r1) {
+            Some(RightPublicKey::Hybridized { H, ek }) => {
+                assert!(H.0 == mulp(s, x[1]), "C04: the published key is h.sk for the NEWEST secret of the right");
+                assert!(ek.0 == d, "C11: a hybridized secret publishes the encapsulation key of its own KEM key");
+            }
+            _ => assert!(false, "C11: a hybridized right publishes a hybridized key"),
+        }
+        if act3 {
+            match mpk.encryption_keys.get(&r3) {
+                Some(RightPublicKey::Classic { H }) => assert!(H.0 == mulp(s, x[4]), "C04: the published key is h.sk for the newest secret"),
+                _ => assert!(false, "C11: a classic right publishes a classic key"),
+            }
+        }
+        let mut it = mpk.tpk.0.iter();
+        assert!(it.next().map(|p| p.0) == Some(t0) && it.next().map(|p| p.0) == Some(t1) && it.next().is_none(), "C17: the public tracers are those of the master key, in order");
+        std::mem::forget(msk);
+        std::mem::forget(mpk);
+    }
+}
+
+macro_rules! select_subkeys_contract {
+    ($name:ident, $h1:expr, $h2:expr) => {
+        kproof! {
+            #[kani::unwind(8)]
+            fn $name() {
+                let (r1, r2, r3, r9) = (right(&[1]), right(&[2]), right(&[3]), right(&[9]));
+                let (p1, p2, p3): (u8, u8, u8) = (any_fe(), any_fe(), any_fe());
+                let mk = |h: bool, p: u8| if h { RightPublicKey::Hybridized { H: Pk { 0: p }, ek: Ek { 0: p } } } else { RightPublicKey::Classic { H: Pk { 0: p } } };
+                let mut keys = HashMap::new();
+                keys.insert(r1.clone(), mk($h1, p1));
+                keys.insert(r2.clone(), mk($h2, p2));
+                keys.insert(r3.clone(), mk(false, p3));
+                let mpk = MasterPublicKey { tpk: TracingPublicKey(LList::new()), encryption_keys: keys, access_structure: AccessStructure::new() };
+                let mut targets = HashSet::new();
+                targets.insert(r2.clone());
+                targets.insert(r1.clone());
+                let res = ok_or_forget(mpk.select_subkeys(&targets));
+                assert!(res.is_some(), "C09: selection succeeds when every target is published");
+                let (flag, ks) = res.unwrap();
+                assert!(flag == ($h1 && $h2), "C11: the encapsulation is hybridized iff every targeted right is hybridized");
+                assert!(ks.len() == 2, "C01: one sub-key per target, no omission, no duplicate");
+                assert!(*ks[0] == mk($h2, p2) && *ks[1] == mk($h1, p1), "C01: the selected sub-keys are those of the targets");
+                let mut bad = HashSet::new();
+                bad.insert(r1.clone());
+                bad.insert(r9.clone());
+                let e = err_kind(mpk.select_subkeys(&bad));
+                assert!(e == E_KEY, "C09: encapsulating for a right with no published key fails (KeyError)");
+                std::mem::forget(mpk);
+            }
+        }
+    };
+}
+// @obl props=C01,C09,C11 tier=quick class=bounded fn=core::MasterPublicKey::select_subkeys shape="3 published rights, 2 targets both hybridized"
+select_subkeys_contract!(select_subkeys__all_hybridized, true, true);
+// @obl props=C01,C09,C11 tier=quick class=bounded fn=core::MasterPublicKey::select_subkeys shape="3 published rights, 2 targets mixed"
+select_subkeys_contract!(select_subkeys__mixed, true, false);
+// @obl props=C01,C09,C11 tier=thorough class=bounded fn=core::MasterPublicKey::select_subkeys shape="3 published rights, 2 targets both classic"
+select_subkeys_contract!(select_subkeys__all_classic, false, false);
